@@ -43,12 +43,17 @@ def do_harness(B, qual, real):
     def enter(c, a, k):
         no_after_exit("enter")
         ctx.prove(B.name + "/call self.enter/first", g["n_enter"] == 0 and g["n_recur"] == 0, kind="call-requires", detail="enter once, first", top=True)
+        # C01/C02 (consumer side): do() must let enter() fill self.deeds itself (doers=None).  With doers given,
+        # enter() fills a local deque, and doers entered before a failing enter would be in no deeds for exit().
+        ctx.prove(B.name + "/call self.enter/enters-into-own-deeds", k.get("doers") is None and not a, kind="call-requires",
+                  detail="do() calls enter() without a doers argument, so entered doers are in self.deeds even if a later enter raises", top=True)
         g["n_enter"] += 1
         g["deeds_nonempty"] = ctx.fresh("bool", "deeds_nonempty")
         g["tyme_enter"] = ctx.st(self)["_tyme"]
         if ctx.fork(2, "enter-outcome") == 1:
             g["failed"] = True
             raise PyExc(ExcVal(None, (), upper=Exception))
+        return ctx.st(self)["deeds"]
 
     def recur(c, a, k):
         no_after_exit("recur")
